@@ -18,7 +18,7 @@ func newBig(x uint64) *big.Int { return new(big.Int).SetUint64(x) }
 var (
 	prices   = []uint64{1, 1, 2, 3, 5, 10, 10, 11, 12, 20, 50}
 	gasLims  = []uint64{100000, 100000, 60000, 1000000}
-	balances = []uint64{0, 50000, 2000000, 2000000, 30000000, 1000000000, 1000000000}
+	balances = []uint64{0, 50000, 2000000, 30000000, 30000000, 1000000000, 1000000000, 1000000000}
 )
 
 func genCfg(r *hx.Rng) ACfg {
@@ -194,6 +194,9 @@ func concurrentRun(run *hx.Run, r *hx.Rng) {
 	stop := make(chan struct{})
 	fail := func(where string, fs []clauseFail) {
 		for _, f := range fs {
+			if f.clause == "run" && f.missing < w.HiNonce(f.acct) {
+				f.clause = "run-reinject-hole" // a hole below a nonce the chain had already reached: re-injection after a rollback
+			}
 			run.Violate("concurrent-"+f.clause, "concurrent-"+f.clause, map[string]interface{}{"cfg": h.Cfg, "seed": run.Seed}, where+": "+f.detail)
 		}
 	}
